@@ -7,7 +7,7 @@ CMD=$(python3 -c "
 import json,sys,re
 m=json.load(open('$OUT/meta.json'))
 c=m.get('demo_cmd','')
-c=c.split('&&')[-1].strip()
+c=c.split('&&')[-1].strip().replace(chr(39),'').replace(chr(34),'')
 print(c)")
 DEST=$(echo "$CMD" | grep -o '\./[A-Za-z0-9_/.-]*' | head -1 | sed 's#^\./##; s#/$##; s#/\.\.\.$##')
 echo "[$ID-$TAG] dest=$DEST cmd=$CMD"
